@@ -55,8 +55,9 @@ def run_contracts(classes, tier, jobs=16, mutants="none"):
         elif mutants == "none":
             ms = []
         for mu in ms:
-            for label, st in sts:
-                mtasks.append((cls.__module__, cls.__name__, label, st, tuple(mu), True))
+            msts = list(c.mutant_structures(tier, mu[0])) if hasattr(c, "mutant_structures") else sts
+            for label, st in msts:
+                mtasks.append((cls.__module__, cls.__name__, label, st, tuple(mu), False))
     if jobs <= 1:
         res = [_job(t) for t in tasks]
         mres = [_job(t) for t in mtasks]
@@ -66,6 +67,17 @@ def run_contracts(classes, tier, jobs=16, mutants="none"):
             res = pool.map(_job, tasks, chunksize=max(1, len(tasks) // (jobs * 8)))
             mres = pool.map(_job, mtasks, chunksize=max(1, len(mtasks) // (jobs * 8))) if mtasks else []
     return res, mres
+
+
+def mutant_refuted(mr, base):
+    """a seeded fault counts as refuted only through an obligation that is NOT already refuted on the unmutated source"""
+    for clause, o in mr.get("obligations", {}).items():
+        if o["status"] != "refuted":
+            continue
+        b = (base or {}).get("obligations", {}).get(clause)
+        if b is None or b["status"] != "refuted":
+            return True
+    return False
 
 
 def summarize(res):
@@ -106,9 +118,10 @@ def main(argv):
                 print("    %s %s :: %s %s" % (st.upper(), oid, o["detail"][:300], o.get("model")))
     if mres:
         bym = {}
+        base = {(r["cls"], r["structure"]): r for r in res}
         for r in mres:
             k = (r["cls"], r["mutant"])
-            ref = any(o["status"] == "refuted" for o in r["obligations"].values())
+            ref = mutant_refuted(r, base.get((r["cls"], r["structure"])))
             bym[k] = bym.get(k, False) or ref
             if r.get("error"):
                 print("   mutant error", k, r["error"][:300])
